@@ -499,3 +499,25 @@ def angle_pre(name, lo, hi, closed=True):
                 z3.Implies(z3.Or(v == 0, v == 360), z3.And(s == 0, c == 1)), z3.Implies(v == 180, z3.And(s == 0, c == -1)),
                 z3.Implies(z3.Or(v < 90, v > 270), c > 0), z3.Implies(z3.And(v > 90, v < 270), c < 0)]
     return pre
+
+
+def install_reduce_summary(Angle):
+    """replace Angle.reduce_deg, for angle-provenanced arguments only, by its contract (established bit-precisely by C03):
+    r = x - 360 k, |r| < 360, sign r = sign x (or r = 0), k integer -- whole turns do not change the provenance"""
+    orig = Angle.reduce_deg
+
+    def reduce_deg(deg):
+        if not (isinstance(deg, Num) and deg.ang is not None and core.CUR is not None and core.CUR.trig == 'atoms'):
+            return orig(deg)
+        ctx = core.CUR
+        small = ctx.decide(z3.And(deg.e < 360, deg.e > -360))
+        if small:
+            return core.s_float(deg)
+        k = z3.Int(ctx.fresh_name('turns'))
+        r = z3.Real(ctx.fresh_name('reduced'))
+        ctx.assume(z3.And(r == deg.e - 360 * z3.ToReal(k), r < 360, r > -360, z3.Implies(deg.e >= 0, r >= 0), z3.Implies(deg.e <= 0, r <= 0)))
+        out = Num('r', e=r, ty=float)
+        out.ang = deg.ang.copy()
+        return out
+    Angle.reduce_deg = staticmethod(reduce_deg)
+    return orig
